@@ -51,6 +51,10 @@ class DensityEstimator(ABC):
         # switch variables to the centre and width of the interval
         c = 0.5 * (lwr + upr)
         w = upr - lwr
+        if w <= 0.0:
+            # the fraction is too small for the sample to resolve (fewer than one sample
+            # inside the interval): start from a narrow interval around the mode instead
+            c, w = self.mode, fraction / self(self.mode)
 
         simplex = array([[c, w], [c, 0.95 * w], [c - 0.05 * w, w]])
         weight = 0.2 / self(self.mode)
